@@ -8,14 +8,17 @@
 (*   ctor   var = Switch()           flip    var = obj.flip()   (no branch) *)
 (*   toggle var = obj.toggle()  (branch on the state)                       *)
 (*   get    var = obj.get()          int     var = 3                        *)
-(*   add    var = obj.add(intvar)                                           *)
+(*   add    var = obj.add(intvar)    total   var = obj.total   (property)   *)
+(*   mark   var = obj.mark()   (returns an instance of a nested class)      *)
+(*   mode   var = mod.mode_of(obj)   (returns an enum member)               *)
+(*   boom   var = obj.boom()   (raises; only as the last statement)         *)
 (* The abstract pipeline itself is Pipeline.tla; here TLC only enumerates   *)
 (* the inputs that are replayed through the real assertion generation,      *)
 (* statement minimisation (every strategy and direction) and export.        *)
 (***************************************************************************)
 EXTENDS Naturals, Sequences, FiniteSets, TLC, Json
 
-CONSTANTS MaxLen
+CONSTANTS MaxLen, Kinds   \* Kinds: the receiver-taking statement kinds in use
 
 VARIABLES prog, done
 vars == <<prog, done>>
@@ -26,11 +29,12 @@ St(k, o, a) == [k |-> k, o |-> o, a |-> a]
 
 Candidates(p) ==
   {St("ctor", 0, 0), St("int", 0, 0)}
-  \cup {St(k, o, 0) : k \in {"flip", "toggle", "get"}, o \in Ctors(p)}
+  \cup {St(k, o, 0) : k \in Kinds, o \in Ctors(p)}
   \cup {St("add", o, a) : o \in Ctors(p), a \in Ints(p)}
 
 Init == prog = <<St("ctor", 0, 0)>> /\ done = FALSE
-Extend == ~done /\ Len(prog) < MaxLen /\ \E s \in Candidates(prog) : prog' = Append(prog, s) /\ done' = FALSE
+Extend == /\ ~done /\ Len(prog) < MaxLen /\ prog[Len(prog)].k # "boom"
+          /\ \E s \in Candidates(prog) : prog' = Append(prog, s) /\ done' = FALSE
 Finish == ~done /\ Len(prog) > 1 /\ done' = TRUE /\ UNCHANGED prog
 Next == Extend \/ Finish
 Spec == Init /\ [][Next]_vars
